@@ -17,6 +17,7 @@ from .srcmodel import ClassDef, FuncDef, SrcModel, assigned_expr, dotted, norm, 
 
 MUTATORS = {"append", "extend", "insert", "add", "update", "setdefault", "pop", "popitem", "clear", "remove", "discard",
             "sort", "reverse", "__setitem__", "appendleft", "move_to_end"}
+ONE_SHOT_FACTORIES = ("zip", "map", "filter", "iter", "reversed", "enumerate", "chain", "islice", "starmap", "zip_longest", "product", "permutations", "combinations")
 MEMO_DECORATORS = ("lru_cache", "cache", "cached_property", "memoize", "alru_cache", "cached")
 # classes whose instances live for one call only (created and dropped inside one evaluation step)
 PER_CALL_BASES = ("lark.Transformer", "lark.visitors.Transformer", "ahbicht.expressions.expression_builder.ExpressionBuilder")
@@ -220,6 +221,13 @@ def hidden_state_sites(model: SrcModel, fn: FuncDef) -> List[Tuple[str, ast.AST,
                 out.append(("closure-store", n_, f"stores into '{_root_name(t_)}', a variable of the enclosing function that outlives the call: {norm(t_, 70)}"))
         if isinstance(n_, ast.Call) and isinstance(n_.func, ast.Attribute) and n_.func.attr in MUTATORS and _root_name(n_.func.value) in enclosing:
             out.append(("closure-store", n_, f"mutates '{_root_name(n_.func.value)}', a variable of the enclosing function that outlives the call: {norm(n_, 70)}"))
+    # a module-level iterator object (zip/map/filter/generator ...) is consumed by the first call that iterates it
+    for n_ in walk_shallow(fn.node):
+        if isinstance(n_, ast.Name) and isinstance(n_.ctx, ast.Load) and n_.id not in locals_ and n_.id in mutables:
+            v_ = mutables[n_.id]
+            if isinstance(v_, ast.GeneratorExp) or (isinstance(v_, ast.Call) and (dotted(v_.func) or "").split(".")[-1] in ONE_SHOT_FACTORIES
+                                                    and (dotted(v_.func) or "").split(".")[0] in ("zip", "map", "filter", "iter", "reversed", "enumerate", "itertools")):
+                out.append(("module-iterator", n_, f"uses the module-level iterator '{n_.id}' = {norm(v_, 60)}: it is exhausted after its first use, later calls see nothing"))
     for d in fn.node.decorator_list:
         name = dotted(d.func if isinstance(d, ast.Call) else d) or norm(d)
         if name.split(".")[-1] in MEMO_DECORATORS and fn.qualname not in ALLOWED_MEMO:
